@@ -174,7 +174,7 @@ func eDecodeDecrypt(name string, key func() *security.IKESAKey, pre bool, init b
 			return "", err
 		}
 		if m == nil {
-			return "", fmt.Errorf("nil message without error")
+			panic("DecodeDecrypt returned (nil message, nil error): neither a value nor an error")
 		}
 		return bridge.ObserveMsg(m).JSON(), nil
 	}}
@@ -842,6 +842,38 @@ func c04Mutations(c *core.Ctx) {
 			if cut >= 28 || true {
 				c04Probe(k, eDecodeDecrypt("DecodeDecrypt[keyed,truncated]", e.keyFn(i), false, !init), wire[:cut], wire[cut:], "trunc-prot")
 			}
+		}
+	})
+	// implemented cleartext payloads in FRONT of an SK payload (legal chain, the datagram then does not "start with SK")
+	c.Family("cleartext-before-SK", c.N(1500, 200000), func(k *core.Case) {
+		e := newC04env(core.NewRng(uint64(k.Seed), 77))
+		i := k.Index % 3
+		init := k.R.Bool()
+		m := gen.Msg(k.R, gen.Opt{Protected: true, MaxPayloads: 2, AllowEmpty: true})
+		inner, first, err := ref.EncodeChain(m.Payloads, nil)
+		if err != nil || len(inner) > 3000 {
+			return
+		}
+		var outer []abs.Payload
+		for j := 0; j < 1+k.R.Intn(2); j++ {
+			outer = append(outer, gen.Payload(k.R, uint8(k.R.Pick(abs.PNotify, abs.PVendor, abs.PNonce, abs.PNotify))))
+		}
+		padn := (16 - (len(inner)+1)%16) % 16
+		wire, err := ref.ProtectOuter(m, first, inner, e.raws[i].Suite, e.raws[i].Dir(init), k.R.Bytes(16), k.R.Bytes(padn), nil, outer)
+		if err != nil {
+			return
+		}
+		if k.R.Chance(1, 3) {
+			wire = mutate(k.R, wire)
+			fixLen(wire)
+		}
+		c04Probe(k, eMsgDecode, wire, nil, "clear+SK")
+		for _, pre := range []bool{false, true} {
+			if pre && len(wire) < 28 {
+				continue
+			}
+			c04Probe(k, eDecodeDecrypt("DecodeDecrypt[keyed,cleartext-before-SK]", e.keyFn(i), pre, !init), wire, nil, "clear+SK")
+			c04Probe(k, eDecodeDecrypt("DecodeDecrypt[nokey,cleartext-before-SK]", func() *security.IKESAKey { return nil }, pre, !init), wire, nil, "clear+SK")
 		}
 	})
 	c.Family("random", c.N(3000, 600000), func(k *core.Case) {
